@@ -150,6 +150,11 @@ fn stream(case: &Case, obs: &mut Obs) -> PropResult {
 	let text1 = String::from_utf8(t1.clone()).map_err(|_| "output is not UTF-8".to_string())?;
 	let mut back: Mappings<2, Ns> = Mappings::from_namespaces([m.ns[0].as_str(), m.ns[1].as_str()]).map_err(|e| format!("{e:#}"))?;
 	let orphan = orphan_present(m);
+	// history: a read that fails (the text cut at two thirds, into a throw-away set) comes first
+	if t1.len() > 12 {
+		let mut scratch: Mappings<2, Ns> = Mappings::from_namespaces([m.ns[0].as_str(), m.ns[1].as_str()]).map_err(|e| format!("{e:#}"))?;
+		let _ = crate::engine::no_panic(|| quill::enigma_file::read_into(&t1[..t1.len() * 2 / 3], &mut scratch).is_ok());
+	}
 	let read = quill::enigma_file::read_into(t1.as_slice(), &mut back);
 	let structure = check_structure(m, &[&text1]);
 	let result: PropResult = (|| {
